@@ -1124,7 +1124,7 @@ class CueText(Component):
     def __init__(self, mode='exact'):
         self.mode = mode
     def cases(self, rng, tier, boost):
-        out = []
+        out = [f'cuetext total={t} text={x.encode("utf-8").hex()}' for t, x in metagen.cue_edge_texts()]
         for _ in range(self.budget(tier, boost, 300, 15000)):
             wf = rng.random() < 0.55
             total, text, expected = metagen.cue_text(rng, wellformed=wf)
